@@ -150,9 +150,19 @@ pub fn eval(expr: Node) -> Result<Decimal, Box<dyn error::Error>> {
         Exp2(sub_expr) => Decimal::new(2, 0)
             .checked_powd(eval(*sub_expr)?)
             .ok_or_else(overflow),
-        Pow(expr1, expr2) => eval(*expr1)?
-            .checked_powd(eval(*expr2)?)
-            .ok_or_else(overflow),
+        Pow(expr1, expr2) => {
+            let base = eval(*expr1)?;
+            let exponent = eval(*expr2)?;
+            if exponent.is_sign_negative() && !base.is_zero() && base.abs() < Decimal::new(1, 0) {
+                // x^-y is computed as 1 / x^y, and for |x| < 1 the tiny x^y keeps only a few of its
+                // 28 decimal places; (1/x)^y keeps them all
+                return Decimal::new(1, 0)
+                    .checked_div(base)
+                    .and_then(|inverse| inverse.checked_powd(-exponent))
+                    .ok_or_else(overflow);
+            }
+            base.checked_powd(exponent).ok_or_else(overflow)
+        }
         Log(expr1, expr2) => {
             let numerator = eval(*expr1)?.checked_ln().ok_or_else(undefined)?;
             let denominator = eval(*expr2)?.checked_ln().ok_or_else(undefined)?;
